@@ -75,6 +75,35 @@ def setup():
     return 0
 
 
+_MC = {'n': 0}
+
+
+def model_contradicts(lib, v):
+    """True iff the violation's case can be run through the extracted model and the implementation and they differ on it.
+    (None / False when the case has no machine-readable form, the model has no such entry point, or they agree.)"""
+    c = v.get('case') or {}
+    if not isinstance(c, dict) or 'kind' not in c or 'fields' not in c or _MC['n'] >= 400:
+        return False
+    _MC['n'] += 1
+    try:
+        from lib import Case
+        import doccorr
+        case = Case.from_json(c)
+        if case.kind in ('doc', 'docfull', 'probe', 'docbytes'):
+            xml = bytes.fromhex(case.fields[1]).decode('utf-8'); cfg = doccorr.dec_cfg(case.fields[0])
+            if not doccorr.applicable(xml, cfg):
+                return False
+            return doccorr._differs(lib, xml, cfg)
+        if case.kind not in ('fstr', 'fdisplay', 'strp', 'attrsplit', 'posbbox', 'resolve', 'textstr', 'textattr', 'connect', 'evalcond', 'evallist', 'xfrm'):
+            return False       # only entry points that the harness and the driver answer in the same format
+        a = lib.run_impl([case], shards=1).get(case.id); b = lib.run_model([case], shards=1).get(case.id)
+        if not a or not b or b[0] in ('SKIP', 'TIMEOUT', 'OUTOFFUEL', 'STACKOVERFLOW', 'DRIVERFAIL'):
+            return False
+        return a != b
+    except Exception:
+        return False
+
+
 def run_check(pid, tier, seed, replay=None):
     t0 = time.time()
     import shutil
@@ -134,6 +163,11 @@ def run_check(pid, tier, seed, replay=None):
             for v in mod.run(ctx):
                 # v = dict(what=..., case=..., observed=..., expected=..., kind='oracle'|'correspondence')
                 k = mod.classify(v, known) if hasattr(mod, 'classify') else None
+                if k and ctx['model_ok'] and model_contradicts(lib, v):
+                    # a known finding describes the recorded behaviour, which the model reproduces; where the implementation no
+                    # longer answers as the model does on this very case, the finding does not explain what was observed
+                    v = dict(v); v['what'] = v.get('what', '') + ' [inside the class of known finding %s, but the model of the recorded behaviour answers differently on this case]' % k
+                    k = None
                 if k:
                     known_hits[k] = known_hits.get(k, 0) + 1
                 else:
